@@ -239,6 +239,17 @@ func analyse0(v any, stack []byte) *crash {
 	}
 	leaf := shortFn(fr[0].fn)
 	site := ""
+	// an accessor of a nil *WorkObject says nothing about who failed to check for nil: name the
+	// first caller outside the type
+	if c.kind == "nil-deref" && strings.HasPrefix(leaf, "types.WorkObject.") {
+		for _, f := range fr[1:] {
+			s := shortFn(f.fn)
+			if strings.HasPrefix(f.fn, quaiPrefix) && !strings.HasPrefix(s, "types.WorkObject.") {
+				c.fp = s + "/" + c.kind + "@types.WorkObject"
+				return c
+			}
+		}
+	}
 	if strings.HasPrefix(fr[0].fn, quaiPrefix) && !isUtility(leaf) {
 		c.fp = leaf + "/" + c.kind
 		if c.fatal && strings.HasPrefix(leaf, "rawdb.") {
